@@ -46,6 +46,26 @@ func c16AmtCheck(c c16Amt) (fs []rep.Finding) {
 			fs = append(fs, rep.F("UTXO.json|field-lost", fmt.Sprintf("err=%v got %d", err, back.Satoshis)))
 		}
 	}
+	// decoding into a target that already holds another UTXO must not disturb objects decoded earlier
+	{
+		u2 := &bt.UTXO{TxID: txid32(8), Vout: 9, Satoshis: c.Sats + 1, LockingScript: bscript.NewFromBytes([]byte{0x51})}
+		b1, e1 := json.Marshal(u.NodeJSON())
+		b2, e2 := json.Marshal(u2.NodeJSON())
+		if e1 == nil && e2 == nil {
+			var target bt.UTXO
+			if json.Unmarshal(b1, target.NodeJSON()) == nil {
+				first := target // struct copy keeps the slices it was given
+				if json.Unmarshal(b2, target.NodeJSON()) == nil {
+					if !bytes.Equal(first.TxID, u.TxID) || !bytes.Equal(scriptBytes(first.LockingScript), *script) {
+						fs = append(fs, rep.F("UTXO.node|decode-reuses-buffers", "decoding a second UTXO into the same target changed the first one's txid/script bytes"))
+					}
+					if !bytes.Equal(target.TxID, u2.TxID) || target.Vout != 9 || target.Satoshis != c.Sats+1 {
+						fs = append(fs, rep.F("UTXO.node|second-decode-wrong", "second decode into a used target is wrong"))
+					}
+				}
+			}
+		}
+	}
 	if b, err := json.Marshal(u.NodeJSON()); err != nil {
 		fs = append(fs, rep.F("UTXO.node|marshal", err.Error()))
 	} else {
@@ -211,7 +231,10 @@ func c16TxCheck(c c16Tx) (fs []rep.Finding) {
 	q("UTXOs", func() {
 		var us bt.UTXOs
 		for i, o := range tx.Outputs {
-			us = append(us, &bt.UTXO{TxID: tx.TxIDBytes(), Vout: uint32(i), Satoshis: o.Satoshis, LockingScript: o.LockingScript})
+			id := tx.TxIDBytes()
+			id[0] ^= byte(i * 17) // every element has its own txid
+			id[31] ^= byte(i + 1)
+			us = append(us, &bt.UTXO{TxID: id, Vout: uint32(i), Satoshis: o.Satoshis, LockingScript: o.LockingScript})
 		}
 		if len(us) == 0 {
 			return
@@ -257,6 +280,13 @@ func c16Boundary() []uint64 {
 		p *= 10
 	}
 	out = append(out, 2100000000000000-1, 2100000000000000, 2100000000000000+1)
+	in := out[:0]
+	for _, a := range out {
+		if a <= 2100000000000001 { // the property ranges over 0..21e14 satoshis
+			in = append(in, a)
+		}
+	}
+	out = in
 	for k := uint64(1); k <= 2000; k++ {
 		out = append(out, k*100000000-1, k*100000000+1, k*100000000+29, k*12345678901+57)
 	}
